@@ -56,30 +56,10 @@ CFG = ("SPECIFICATION Spec\nINVARIANT NameOpIsDecl\nINVARIANT KthAtomAgrees\nINV
        "INVARIANT IncludeOnce\nINVARIANT SameNameSameTopology\nINVARIANT SortKeepsAtoms\nINVARIANT KthGroAgrees\n"
        "INVARIANT SharedIffEqual\n")
 
-def _near_equal_integers(sc):
-    """two integer attribute values of the scenario (residue number, charge group) that differ although numpy.isclose
-    calls them equal (what vermouth.utils.are_different uses for every number)"""
-    import numpy as np
-    vals = set()
-    for p in sc.get('random', {}).get('palette', []):
-        for a in p['atoms']:
-            vals.update(v for v in (a.get('resid'), a.get('charge_group')) if isinstance(v, int))
-    return any(a != b and bool(np.isclose(a, b)) for a in vals for b in vals)
-
-
-D33_CLAUSES = ('same-name-for-molecules-with-different-topologies', 'history:same-name-for-molecules-with-different-topologies',
-               'kth-coordinate-record-is-not-the-kth-itp-atom', 'gro:kth-gro-record-is-not-the-kth-itp-atom')
-SIGNATURES = {
-    # D33: are_different compares integers with numpy.isclose: residue numbers >= 100000 that differ by 1 are "equal",
-    # NameMolType(deduplicate=True) gives such molecules one molecule type
-    'D33': lambda kind, sc: sc.get('why') in D33_CLAUSES and _near_equal_integers(sc),
-}
+SIGNATURES = {}
 # findings of this driver that wait for the lead's decision (id -> text): while known_findings.json has no entry with the
 # id, a scenario matching SIGNATURES[id] is printed as a NOTE and counted in the evidence, not reported as a violation
-PENDING = {
-    'D33': 'utils.are_different compares integers with numpy.isclose (rtol 1e-5): molecules that differ only in a residue '
-           'number >= 100000 (100000 / 100001) share a molecule type under deduplication, their ITP states the first one\'s number',
-}
+PENDING = {}
 
 
 def _shape(atoms, bonds, nrexcl=1):
@@ -663,7 +643,8 @@ def random_system_scenario(rng):
     for _ in range(rng.randint(0, 3)):
         palette.append(mutate_recipe(rng, rng.choice(base)))
     if rng.random() < 0.06:
-        # two copies that differ in ONE residue number, both >= 100000 (adjacent integers an approximate comparison confuses)
+        # two copies that differ in ONE residue number, both >= 100000: adjacent integers an approximate comparison confuses
+        # (D33: are_different used numpy.isclose for integers; fixed in /repo 3861b6a, kept as a regression guard)
         c1, c2 = copy.deepcopy(rng.choice(base)), None
         i = rng.randrange(len(c1['atoms']))
         c1['atoms'][i]['resid'] = 100000 + rng.randrange(0, 20000)
